@@ -7,6 +7,7 @@ let modes : (string * (string -> string)) list = [
   "srvseq", Mode_srvseq.check_line;
   "recv", Mode_recv.check_line;
   "ufs", Mode_ufs.check_line;
+  "conc", Mode_conc.check_line;
 ]
 
 let () =
